@@ -140,6 +140,12 @@ def family(r):
     for j in range(nf):
         body = r.choice([f"    d{j}.Setting = a + {j}", f"    d{j}.On = a\n    d{j}.Mode = a * 2", f"    if a > {j}:\n        d{j}.Setting = a\n    d{j}.Power = {j}"])
         ret = r.random() < 0.5
+        if ret and r.random() < 0.45:
+            # early returns: from an `if`, from inside a `for` loop, from inside a `while` loop (the function's end label and its
+            # `j ra` must still be reached by every one of them)
+            body += "\n" + r.choice([f"    if a > {j + 2}:\n        return a * 2",
+                                     f"    for i{j} in range(3):\n        if a > i{j}:\n            return i{j} + {j}",
+                                     f"    while a < {j + 4}:\n        a += 1\n        if a == {j + 3}:\n            return a"])
         tail = (not ret) and r.random() < 0.4
         if tail:
             # a helper used only as the last statement of f{j}: inlined there; with tail-call optimisation the call site is a tail call
